@@ -143,16 +143,20 @@ Definition add_msg (d : db) (f : filed) : db := mkDb (users d) (roles d) (msgs d
 Definition usage_of (d : db) (st : store) : Z :=
   fold_right (fun f acc => if store_eqb (f_store f) st then f_size f + acc else acc) 0 (msgs d).
 
-(** Storage.GetUserQuota: first user row with that username, any domain *)
-Definition get_user_quota (d : db) (username : str) : Z :=
-  match find (fun u => str_eqb (u_name u) username) (users d) with
-  | None => 0
-  | Some u => usage_of d (UserStore (u_name u) (u_domain u))
-  end.
+(** Storage.CheckRecipientQuota: usage of the store DeliverMessage would file
+    into — the role mailbox if the address is an enabled role address
+    (GetRoleMailboxByEmail), else the store of the enabled user local@domain
+    (GetUserByEmail); nothing found (no such user yet, disabled, no "@"): 0.
+    [true] = ErrQuotaExceeded *)
+Definition recipient_usage (d : db) (recipient : str) : Z :=
+  if get_role_mailbox_by_email d recipient then usage_of d (RoleStore recipient)
+  else match extract_parts recipient with
+       | Some (n, dom) => if get_user_by_username d n dom then usage_of d (UserStore n dom) else 0
+       | None => 0
+       end.
 
-(** Storage.CheckQuota: [true] = the error "quota exceeded" *)
-Definition check_quota (d : db) (username : str) (size limit : Z) : bool :=
-  limit <? get_user_quota d username + size.
+Definition check_recipient_quota (d : db) (recipient : str) (size limit : Z) : bool :=
+  limit <? recipient_usage d recipient + size.
 
 (* ------------------------------------------------------------------ *)
 (** * messages, header map, spam routing *)
@@ -320,16 +324,13 @@ Inductive data_reply :=
 Record data_out := mkDataOut {
   do_reply : data_reply;
   do_deliveries : list (str * deliver_result);   (* what DeliverMessage did, in order *)
-  do_quota_logged : list str;                    (* "Quota check failed for ..." log lines *)
+  do_over_quota : list bool;                     (* per accepted recipient: refused 552 5.2.2, not delivered *)
   do_db : db }.
 
-Definition quota_log (cfg : config) (d : db) (recipients : list str) (m : message) : list str :=
-  if quota_enabled cfg then
-    filter (fun r => match extract_local_part r with
-                     | None => false
-                     | Some username => check_quota d username (m_size m) (quota_limit cfg)
-                     end) recipients
-  else [].
+(** the overQuota map of handleDATA: computed for every recipient on the
+    database as it is before any delivery of this transaction *)
+Definition over_quota (cfg : config) (d : db) (m : message) (r : str) : bool :=
+  quota_enabled cfg && check_recipient_quota d r (m_size m) (quota_limit cfg).
 
 Definition handle_data (cfg : config) (d : db) (recipients : list str) (m : message) : data_out :=
   match recipients with
@@ -339,13 +340,15 @@ Definition handle_data (cfg : config) (d : db) (recipients : list str) (m : mess
       else if negb (m_parse_ok m) then mkDataOut (DR_refused 554 (length recipients)) [] [] d   (* ParseMessage *)
       else if (max_size cfg <? m_size m) then mkDataOut (DR_refused 554 (length recipients)) [] [] d   (* ValidateMessage *)
       else
-        let logged := quota_log cfg d recipients m in                      (* result ignored *)
-        let '(results, d') := deliver_to_multiple d recipients m (default_folder cfg) in
-        let replies := map (fun r => match results_get results r with
-                                     | Some D_err => false
-                                     | _ => true          (* nil error (also for a missing key) *)
-                                     end) recipients in
-        mkDataOut (DR_per replies) results logged d'
+        let over := over_quota cfg d m in
+        let deliver_to := filter (fun r => negb (over r)) recipients in
+        let '(results, d') := deliver_to_multiple d deliver_to m (default_folder cfg) in
+        let replies := map (fun r => if over r then false          (* 552 5.2.2 mailbox full *)
+                                     else match results_get results r with
+                                          | Some D_err => false
+                                          | _ => true          (* nil error (also for a missing key) *)
+                                          end) recipients in
+        mkDataOut (DR_per replies) results (map over recipients) d'
   end.
 
 (* ------------------------------------------------------------------ *)
@@ -392,15 +395,23 @@ Definition outcome_of (reply_ok : bool) (res : deliver_result) : moutcome :=
   | _, _ => MInconsistent        (* filed but reported failed, or reported ok and not filed *)
   end.
 
-Fixpoint zip_outcomes (replies : list bool) (dels : list (str * deliver_result)) : list moutcome :=
-  match replies, dels with
-  | b :: replies', (_, res) :: dels' => outcome_of b res :: zip_outcomes replies' dels'
+(** walk the accepted recipients: one over quota has no delivery (and must have
+    been answered with a refusal), the others take the next delivery *)
+Fixpoint zip_outcomes (overs replies : list bool) (dels : list (str * deliver_result)) : list moutcome :=
+  match overs, replies with
+  | true :: overs', b :: replies' =>
+      (if b then MInconsistent else MRefused) :: zip_outcomes overs' replies' dels
+  | false :: overs', b :: replies' =>
+      match dels with
+      | (_, res) :: dels' => outcome_of b res :: zip_outcomes overs' replies' dels'
+      | [] => []
+      end
   | _, _ => []
   end.
 
 Definition data_outcomes (n : nat) (o : data_out) : list moutcome :=
   match do_reply o with
-  | DR_per replies => zip_outcomes replies (do_deliveries o)
+  | DR_per replies => zip_outcomes (do_over_quota o) replies (do_deliveries o)
   | _ => repeat MRefused n
   end.
 
